@@ -91,14 +91,15 @@ Print Assumptions C10_perp_take_guard_means.
 (* OPENS. FULL STATEMENT (what the property asks): every successful open / consolidating re-open leaves
    the stored position with health strictly above the safety factor, health being what GetPositionHealth /
    GetMTPHealth returns in the state the transaction leaves behind (op_health).
-   The code as it is compares the value it computed inside the handler (op_hcheck, also written to the
-   record's health field). For leveragelp that IS the final health. For perpetual it is computed before the
-   after-open hooks refresh the accounted pool that the swap estimation inside GetMTPHealth reads, so it
-   can be above the safety factor while the health of the stored position is not: C10_open_healthy_refuted
-   (numbers observed on the real application; the harness reports it as C10:open-unhealthy:perpetual).
-   Proved for the code as it is: the checked value is strictly above the safety factor (equal is refused),
-   hence the full statement whenever the checked value is the final health; and the full statement for the
-   repaired step (comparison repeated on the final health), which differs from the code only at that site. *)
+   The handlers compare the value they computed inside (op_hcheck, also written to the record's health field).
+   For leveragelp that IS the final health (checked on every observed open by the harness). For perpetual it is
+   computed before the after-open hooks refresh the accounted pool that the swap estimation inside GetMTPHealth
+   reads; BEFORE fix: ba85cca that was the only comparison, so an open could pass while the health of the stored
+   position was at or below the safety factor: C10_open_healthy_prefix_refuted (numbers observed on the real
+   application, signature C10:open-unhealthy:perpetual). Since the fix perpetual Open / OpenConsolidate repeat the
+   comparison on the final health (open_step): the full statement is proved for perpetual
+   (C10_open_healthy_perpetual) and, for leveragelp, whenever the checked value is the final health
+   (C10_open_healthy_partial). *)
 Theorem C10_open_check_healthy : forall s o s',
   open_step s o = Ok s' ->
   sf (op_mod o) s < op_hcheck o /\
@@ -106,6 +107,11 @@ Theorem C10_open_check_healthy : forall s o s',
   pm (op_mod o) s' (op_owner o) (op_id o) = Some (op_pos o).
 Proof. exact open_check_healthy. Qed.
 Print Assumptions C10_open_check_healthy.
+
+Theorem C10_open_healthy_perpetual : forall s o s',
+  op_mod o = MPerp -> open_step s o = Ok s' -> sf MPerp s < op_health o.
+Proof. exact open_healthy_perpetual. Qed.
+Print Assumptions C10_open_healthy_perpetual.
 
 Theorem C10_open_healthy_partial : forall s o s',
   op_hcheck o = op_health o -> open_step s o = Ok s' -> sf (op_mod o) s < op_health o.
@@ -116,13 +122,20 @@ Theorem C10_open_boundary_rejected : forall s o, op_hcheck o <= sf (op_mod o) s 
 Proof. exact open_boundary_rejected. Qed.
 Print Assumptions C10_open_boundary_rejected.
 
-Theorem C10_open_healthy_refuted :
-  exists s o s', open_step s o = Ok s' /\ op_health o <= sf (op_mod o) s /\
+Theorem C10_open_perpetual_final_boundary_rejected : forall s o,
+  op_mod o = MPerp -> op_health o <= sf MPerp s -> is_ok (open_step s o) = false.
+Proof. exact open_perp_final_boundary_rejected. Qed.
+Print Assumptions C10_open_perpetual_final_boundary_rejected.
+
+Theorem C10_open_healthy_prefix_refuted :
+  exists s o s', open_step_prefix s o = Ok s' /\ op_health o <= sf (op_mod o) s /\
                  pm (op_mod o) s' (op_owner o) (op_id o) = Some (op_pos o) /\
                  perp_may_liquidate (op_health o) (sf (op_mod o) s') = true.
 Proof. exact open_healthy_refuted. Qed.
-Print Assumptions C10_open_healthy_refuted.
+Print Assumptions C10_open_healthy_prefix_refuted.
 
+(* the comparison repeated on the final health for both modules: full statement; it differs from the pre-fix step
+   only where the checked value passes and the final health does not *)
 Theorem C10_open_healthy_fixed : forall s o s',
   open_step_fixed s o = Ok s' ->
   sf (op_mod o) s < op_health o /\ pm (op_mod o) s' (op_owner o) (op_id o) = Some (op_pos o).
@@ -131,7 +144,7 @@ Print Assumptions C10_open_healthy_fixed.
 
 Theorem C10_open_eq_fixed_off_site : forall s o,
   (open_ok (op_hcheck o) (sf (op_mod o) s) = true -> open_ok (op_health o) (sf (op_mod o) s) = true) ->
-  open_step_fixed s o = open_step s o.
+  open_step_fixed s o = open_step_prefix s o.
 Proof. exact open_eq_fixed_off_site. Qed.
 Print Assumptions C10_open_eq_fixed_off_site.
 
@@ -169,6 +182,13 @@ Theorem C10_history_open_check_healthy : forall s0 h o,
   pm (op_mod o) (run s0 (h ++ [OOpen o])) (op_owner o) (op_id o) = Some (op_pos o).
 Proof. exact history_open_check_healthy. Qed.
 Print Assumptions C10_history_open_check_healthy.
+
+Theorem C10_history_open_healthy_perpetual : forall s0 h o,
+  let s := run s0 h in
+  op_mod o = MPerp -> is_ok (open_step s o) = true -> sf MPerp s < op_health o.
+Proof. exact history_open_healthy_perpetual. Qed.
+Print Assumptions C10_history_open_healthy_perpetual.
+
 
 (* Non-vacuity: safety factor 1.1; owner 7 has a leveraged-LP position (id 1) with a stop-loss at 0.9 and a
    perpetual long (id 1, stop-loss 4, take-profit 10) and a short (id 2, stop-loss 6.5). A third party sends
